@@ -1,5 +1,7 @@
 use crate::*;
 use std::hash::{DefaultHasher, Hash, Hasher};
+use std::panic::{catch_unwind, AssertUnwindSafe};
+use crate::interpreter::panic_to_error;
 
 const MECH_ERROR_HTML_PREFIX: &str = "__MECH_ERROR_HTML__:";
 
@@ -199,7 +201,13 @@ fn eval_fenced_code_block(
 ) -> MResult<Value> {
   let mut out = Value::Empty;
   for (c, cmmnt) in code {
-    match mech_code(c, interpreter) {
+    // An isolated block also contains its panics: they are errors of the block, not of the document
+    let result = if isolate_errors {
+      catch_unwind(AssertUnwindSafe(|| mech_code(c, interpreter))).unwrap_or_else(|err| Err(panic_to_error(err)))
+    } else {
+      mech_code(c, interpreter)
+    };
+    match result {
       Ok(value) => out = value,
       Err(err) => {
         if isolate_errors {
